@@ -142,6 +142,7 @@ func CheckC06(e *fw.Env, l *Lab) {
 		wantCredits := map[string]*big.Int{} // "addr|denom"
 		var fees [][]spec.Fee
 		refuse := ""
+		either := "" // the outcome is not fixed by this property; if executed, the fold still holds
 		seenIDs := map[string]bool{}
 		for _, act := range order {
 			if seenIDs[act] {
@@ -157,18 +158,30 @@ func CheckC06(e *fw.Env, l *Lab) {
 					if !ok || len(f) == 0 {
 						f = []spec.Fee{{Recipient: w.K("fee1").String(), IsBPS: true, BPS: 30}}
 					}
+					// one fee list in eight pays an entry to the orbiter account itself: a fee that
+					// does not leave the account. Whether such a transfer is executed is not this
+					// property's business (C01 wants it refused); if it is, the running amount is
+					// still the amount minus ALL listed fees
+					if !onlySwapRegistered && either == "" && len(f) < 5 && amt.Cmp(big.NewInt(40)) > 0 && e.R.Intn(8) == 0 {
+						f = append(f, spec.Fee{Recipient: OrbiterReceiver(), Amount: fmt.Sprint(1 + e.R.Intn(9))})
+						if fr := model.Fees(amt, f); fr.Verdict == model.Either && fr.Forward != nil {
+							either = "fee entry paid to the orbiter account"
+						} else {
+							f = f[:len(f)-1]
+						}
+					}
 					fees = append(fees, f)
 					if onlySwapRegistered {
 						refuse = "fee controller not registered"
 						continue
 					}
 					fr := model.Fees(amt, f)
-					if fr.Verdict != model.MustSucceed {
+					if fr.Verdict != model.MustSucceed && !(either != "" && fr.Verdict == model.Either && fr.Forward != nil) {
 						refuse = "fee list not valid for the running amount: " + fr.Reason
 						continue
 					}
 					for k, fe := range f {
-						if fr.PerEntry[k] != nil {
+						if fr.PerEntry[k] != nil && canonAddr(fe.Recipient) != canonAddr(OrbiterReceiver()) {
 							addTo(wantCredits, canonAddr(fe.Recipient)+"|"+denom, fr.PerEntry[k])
 						}
 					}
@@ -220,12 +233,22 @@ func CheckC06(e *fw.Env, l *Lab) {
 		e.Log(map[string]any{"order": order, "transfer": t, "rate": rate})
 		cfg.Rec.Reset(nil)
 		ctx, _ := l.Base.CacheContext()
+		// coins of the denomination the last action produces already sit on the orbiter account
+		// (only the received denomination is swept): whatever the outcome, they are not part of
+		// the coin the actions left
+		if refuse == "" && either == "" && denom != srcDenom && e.R.Intn(6) == 0 {
+			if err := Deposit(w, ctx, w.K("carol"), denom, big.NewInt(int64(1+e.R.Intn(5000)))); err == nil {
+				either = "coins of the output denomination already on the orbiter account"
+			}
+		}
 		o := run.Do(w, ctx, t, run.Mode{Kind: "C", Mod: cfg.Module})
 		e.Res.Eval()
 		MonPanic(e.Res, o)
-		MonC01(e.Res, o)
+		if either == "" {
+			MonC01(e.Res, o)
+		}
 		wtn := map[string]any{"order": order, "rate": rate, "amount": a.String(), "denom": srcDenom, "memo": memo, "outcome": o.Res.String(), "delta": o.Delta.String(),
-			"swap_saw": sw.Seen, "model_swap_sees": wantSeen, "only_swap_registered": onlySwapRegistered}
+			"swap_saw": sw.Seen, "model_swap_sees": wantSeen, "only_swap_registered": onlySwapRegistered, "outcome_not_fixed_because": either}
 		cls := strings.Join(order, ",")
 		if cls == "" {
 			cls = "none"
@@ -240,6 +263,10 @@ func CheckC06(e *fw.Env, l *Lab) {
 				e.Res.Violate(fw.Violation{Property: "C06", Kind: kind, Tags: tags, Detail: refuse, Witness: wtn})
 			}
 			e.Res.Sig("%s|only-swap=%v|refuse:%s|%s", cls, onlySwapRegistered, strings.SplitN(refuse, ":", 2)[0], outcomeClass(o))
+			continue
+		}
+		if !o.Success() && either != "" {
+			e.Res.Sig("%s|either:%s|refused", cls, either)
 			continue
 		}
 		if !o.Success() {
@@ -282,6 +309,10 @@ func CheckC06(e *fw.Env, l *Lab) {
 		if diff := compareRequest(bridge[0], &spec.Spec{Route: rt}, denom, amt); diff != "" {
 			e.Res.Violate(fw.Violation{Property: "C06", Kind: "forwarded-coin-is-not-last-action-output", Tags: tags,
 				Detail: fmt.Sprintf("forwarding request: %s (model final coin %s%s)", diff, amt, denom), Witness: wtn})
+			continue
+		}
+		if either != "" {
+			e.Res.Sig("%s|either:%s|executed-with-the-model-coin", cls, either)
 			continue
 		}
 		// statistics: one entry when the denomination is unchanged, two otherwise
